@@ -277,8 +277,8 @@ func c30RunDoc(doc *c30Doc) (res c30Result) {
 	}()
 	select {
 	case <-done:
-	case <-time.After(120 * time.Second):
-		res.Fail = "timeout (120 s) in compile/render"
+	case <-time.After(900 * time.Second):
+		res.Fail = "timeout (900 s) in compile/render"
 	}
 	return
 }
